@@ -2,6 +2,7 @@ import Proofs.C04
 import Proofs.TieWrap
 import Proofs.TieSite
 import Proofs.TieImages
+import Proofs.SrcC04
 #print axioms PV.Proofs.C04.stepChar_cast
 #print axioms PV.Proofs.C04.runChars_cast
 #print axioms PV.Proofs.C04.init_cast
@@ -30,3 +31,7 @@ import Proofs.TieImages
 #print axioms PV.Proofs.Tie.to_cartesian_isometry_tie
 #print axioms PV.Proofs.Tie.to_cartesian_translate_tie
 #print axioms PV.Proofs.Tie.periodic_images_tie
+#print axioms PV.Proofs.Source.C04_source_symmetry
+#print axioms PV.Proofs.Source.C04_source_copies_eq_order
+#print axioms PV.Proofs.Source.C04_source_wrap_is_lattice_shift
+#print axioms PV.Proofs.Source.C04_source_symmetry_images
